@@ -243,6 +243,13 @@ func VerifC20Cycle() {
 				vsymAssert(len(a.Rows) == rowsA && len(rec.Rows) == rowsRec, "a failed MOVE/COPY out of the recovery mailbox changes nothing")
 			}
 		}
+		// C07: whatever failed, every listed message still has its bytes (or a remote id to fetch them again)
+		for _, box := range w.db.Boxes {
+			for _, r := range box.Rows {
+				_, gerr := w.store.Get(r.Msg)
+				vsymAssert(gerr == nil || !ids.IsRecoveredRemoteMessageID(r.Remote), "every listed message keeps its bytes across failed commands")
+			}
+		}
 		// the recovery mailbox is listed exactly while it holds messages
 		var listed map[string]Match
 		if err := st.List(ctx, "", "*", false, func(m map[string]Match) error { listed = m; return nil }); err != nil {
@@ -251,4 +258,39 @@ func VerifC20Cycle() {
 		_, shown := listed[ids.GluonRecoveryMailboxName]
 		vsymAssert(shown == (len(rec.Rows) > 0), "the recovery mailbox is listed exactly while it is non-empty")
 	}
+}
+
+// VerifC07GetLiteral: a listed message whose cache file is missing or unreadable (truncated, corrupt) is served from
+// the connector again and re-cached, unless it only exists locally (recovered message) or the connector fails.
+func VerifC07GetLiteral() {
+	w := verifNewWorld(limits.DefaultLimits())
+	w.conn.faultBudget = 1
+	a := w.db.AddBox("A", "mb-A", 2)
+	m := w.addMessage(a, 1)
+	lit := []byte(verifLiterals[0])
+	w.conn.literals = map[imap.MessageID][]byte{m.RemoteID: lit}
+	recovered := vsymChoice("recovered", 2) == 1
+	if recovered {
+		m.RemoteID = ids.NewRecoveredRemoteMessageID(m.InternalID)
+	}
+	good := []byte(ids.InternalIDKey + ": " + m.InternalID.String() + "\r\n" + verifLiterals[0])
+	switch vsymChoice("cache", 3) {
+	case 0:
+		w.store.data[m.InternalID] = good
+	case 1: // missing
+	case 2: // present but unreadable
+		w.store.data[m.InternalID] = good[:len(good)/2]
+		w.store.corrupt[m.InternalID] = true
+	}
+	st := w.newState(1)
+	got, err := st.getLiteral(ctxFor(st), m)
+	if err == nil {
+		vsymCover("literal-served")
+		vsymAssert(bytes.HasSuffix(got, lit), "a served message has its exact bytes")
+		again, gerr := w.store.Get(m.InternalID)
+		vsymAssert(gerr == nil && bytes.Equal(again, got), "and is readable from the cache afterwards")
+		return
+	}
+	vsymCover("literal-failed")
+	vsymAssert(recovered || w.conn.faults > 0, "a message the connector can deliver is served even if its cache file is missing or unreadable")
 }
